@@ -46,6 +46,8 @@ int popOf(int pop, const std::vector<std::string>& shape, size_t i, bool* zeroLi
     case 2: *zeroLine = (i == firstLeaf); return leaf ? 2 : 0;
     case 3: return leaf ? 1 : 2;
     case 4: return i == deepest ? 3 : 0;
+    case 5: return leaf ? 1 : 0;  // + pids.current reads 0 everywhere (set in build)
+    case 6: return leaf ? 2 : 0;  // + no pids.current
   }
   return 0;
 }
@@ -65,7 +67,7 @@ struct C01 : vr::Driver {
     acVals = th ? std::vector<int>{0, 1} : std::vector<int>{0};
     // dims: shape, pop, plugin, pattern, recursive, kernelkill, outcome, history, reap, always_continue,
     //       prekill hook (none / matches everything and stays pending for one tick, so the kill is deferred and resumed)
-    mx.dims = {kShapes.size(), 5, plugins.size(), 7, 2, 2, 4, hists.size(), reapVals.size(), acVals.size(), 2};
+    mx.dims = {kShapes.size(), 7, plugins.size(), 7, 2, 2, 4, hists.size(), reapVals.size(), acVals.size(), 2};
   }
   size_t count() override { return mx.total(); }
   size_t chunk() override { return 16; }
@@ -80,6 +82,7 @@ struct C01 : vr::Driver {
       bool z = false;
       c.nprocs = popOf((int)d[1], shape, i, &z);
       c.zeroLine = z;
+      c.pidsMode = d[1] == 5 ? 1 : d[1] == 6 ? 2 : 0;
       c.mem = (long long)(i + 1) * (100LL << 20);
       c.swap = (long long)(shape.size() - i) * (10LL << 20);
       c.p10 = 10 + 3 * (double)i;
@@ -207,8 +210,8 @@ struct C01 : vr::Driver {
     if (!o.attempts.empty()) r.nontrivial(s.plugin + s.args["cgroup"] + ob.str());
   }
   std::string rule() override {
-    return "full product of: 6 tree shapes with glob-ambiguous names (s1,s10,s1x,.s1,t1; up to 3 levels) x 5 population patterns "
-           "(1 proc per leaf, 23 procs, a '0' line, populated internal nodes, nested-only) x kill plugin x 7 cgroup arguments "
+    return "full product of: 6 tree shapes with glob-ambiguous names (s1,s10,s1x,.s1,t1; up to 3 levels) x 7 population patterns "
+           "(1 proc per leaf, 23 procs, a '0' line, populated internal nodes, nested-only, pids.current reading 0 while populated, no pids.current) x kill plugin x 7 cgroup arguments "
            "(literal, s*, s?, multi, */a, s1/*, root) x recursive x kernelkill x 4 kill-outcome policies (all die, all ESRCH, "
            "first EPERM, first lingers) x prekill hook {none, pending for one tick} x multi-tick history (none / vanish / sibling appears / re-created) [x reap_memory x "
            "always_continue in thorough]; each scenario runs the real plugin wet through Oomd::run; monitor: SIGKILL only, pid>0, "
